@@ -198,7 +198,9 @@ int main(int argc, char** argv) {
     if (level == 1) {
         // i0 = preemption bound of the task. quick: all pairs, 2 preemptions. thorough adds: a body with itself, 3 preemptions; triples, 2 preemptions.
         for (int x = 0; x < NBODY; x++) for (int y = x; y < NBODY; y++) tasks.push_back({{x, y}, 2});
-        if (T) { for (int x = 0; x < 6; x++) for (int y = x; y < 6; y++) for (int z = y; z < 6; z += 2) tasks.push_back({{x, y, z}, 2}); for (int x = 0; x < NBODY; x++) tasks.push_back({{x, x}, 3}); }
+        if (T) { static const int TB[] = {0, 1, 3, 4, 5};   // triples without the xz body (its encoder setup dominates the run time) and without the call-free body
+                 for (int x = 0; x < 5; x++) for (int y = x; y < 5; y++) for (int z = y; z < 5; z++) tasks.push_back({{TB[x], TB[y], TB[z]}, 2});
+                 for (int x : {0, 1, 3, 4, 5, 6}) tasks.push_back({{x, x}, 3}); }
         Pool pool(a.jobs, 0);   // the watchdog is armed per schedule below (a task explores thousands of schedules)
         pool.run(tasks.size(), [&](uint64_t ti, Result& R) {
             const Task& t = tasks[ti]; int bound = t.i0; uint64_t nsched = 0; std::set<std::string> seen_digest;
